@@ -43,6 +43,9 @@ def dress(m, rng, p=0.6):
             a.chiral = True if rng.random() < 0.1 else None
 
 
+from vmon.roundtrip import _needs_four_index_symbols  # noqa: E402
+
+
 def run(ctx):
     sf = env.varied(env.load_selfies(), ctx)
     hooks.attach_m1()
@@ -79,6 +82,10 @@ def run(ctx):
             c = classify(t)
             ctx.count("tokens_checked")
             if c is None:
+                if _needs_four_index_symbols(t):
+                    # a ring span / branch length of 16^3 symbols or more: outside the property's domain
+                    ctx.count("beyond_three_index_symbols")
+                    return None
                 ctx.finding("emits-symbol-outside-grammar", dict(payload, selfies=x[:500], symbol=t), t)
                 break
             if c[0] == "atom":
@@ -184,7 +191,10 @@ def run(ctx):
     for nring in ([5, 17, 18, 257, 258, 300] if quick else [5, 16, 17, 18, 100, 256, 257, 258, 1000, 4000]):
         if quick and (nring + ctx.shard) % 2:
             continue
-        m = macrocycle(rng, nring, tail=rng.randint(0, 3), branch_len=rng.choice([0, 20, 300]))
+        blen = rng.choice([0, 20, 300])
+        if nring + blen + 4 > 4096:
+            blen = 0           # every ring span stays below 16^3 symbols (the documented limit, the property's domain)
+        m = macrocycle(rng, nring, tail=rng.randint(0, 3), branch_len=blen)
         s, _, _, _ = spell(m, rng, variants=False)
         check(s, table, "default", "macrocycle")
         check("C1" + "C" * (nring - 2) + "C1" + "C(" + "C" * rng.choice([1, 20, 300]) + ")O", table, "default", "macrocycle-linear")
